@@ -51,6 +51,9 @@ BODIES = {
     # the FIRST time the handler runs it executes RESET (a counter in internal RAM decides); later runs return normally
     "reset_once": bytes([0x32, 0x80, 0x50, 0x6C, 0x00, 0x32, 0xA0, 0x50, 0x60, 0x01, 0x1A, 0x01, 0xFF]),
     "zero": bytes([0x32, 0xCC, 0xFC, 0x00]),       # blanket acknowledge: MV (ISR),0
+    # the handler acknowledges everything and then HALTs inside the handler (master enable still clear): a halted CPU
+    # "resumes exactly when a status bit becomes pending" - also here (host events: keys, ON key, status bits raised)
+    "ack_then_halt": bytes([0x32, 0xCC, 0xFC, 0x00, 0xDE]),
 }
 IMR_VALUES = [0x00, 0x01, 0x04, 0x0F, 0x80, 0x81, 0x84, 0x8F, 0xFF]
 KEYS = ["KEY_Q", "KEY_A", "KEY_F1"]
